@@ -24,6 +24,8 @@
 // ---------------------------------------------------------------------------
 #include <xercesc/util/XMLFloat.hpp>
 #include <math.h>
+#include <float.h>
+#include <stdlib.h>
 
 namespace XERCES_CPP_NAMESPACE {
 
@@ -77,6 +79,13 @@ void XMLFloat::checkBoundary(char* const strValue)
             fType = PosINF;
             fDataConverted = true;
             fDataOverflowed = true;
+        }
+        else if (fValue >= (-1) * FLT_MAX && fValue <= FLT_MAX)
+        {
+            // The value space of float is single precision: literals that
+            // round to the same float, like 0.1 and 0.100000001, denote the
+            // same value. strValue has been prepared for strtod by convert().
+            fValue = strtof(strValue, 0);
         }
     }
 }
